@@ -291,7 +291,21 @@ def run(ctx):
                 base = [G.copy() for G in Y]
                 sh = [int(rng.choice([-150, 200, -100, 130]))] * d
                 k = int(rng.choice([0, 1, d - 2, d - 1]))
+            if t % 16 == 1:
+                # one core far above the square root of the double range (entries ~2^600 .. 2^900, squares overflow),
+                # the others of order one: every core and the tensor itself are representable
+                sh = [0] * d
+                sh[int(rng.integers(d))] = int(rng.choice([600, 900, 520]))
             S = int(sum(sh))
+            Y = [G * 2.0 ** s_ for G, s_ in zip(Y, sh)]
+        elif (not stab) and t % 8 == 2 and d >= 2:
+            # without stabilisation: a huge core (2^600) balanced by a tiny one (2^-600), the tensor is of order one
+            kind = 'pow2-balanced'
+            Y = make_tt(rng, n, r, 'generic')
+            base = [G.copy() for G in Y]
+            sh = [0] * d
+            a_, b_ = [int(x) for x in rng.choice(d, size=2, replace=False)]
+            sh[a_], sh[b_] = 600, -600
             Y = [G * 2.0 ** s_ for G, s_ in zip(Y, sh)]
         keep = [G.copy() for G in Y]
         try:
